@@ -9,7 +9,7 @@ UNI = ["α", "β", "γ", "δ", "é", "ß", "Ω", "ж", "中", "𝒳"]
 
 def gen_names(rng, n, style=None):
     """n distinct names, returned sorted (index = position in sorted order)."""
-    style = style or rng.choice(["v", "v", "letters", "unicode", "long", "blanks", "digits", "mixed", "casetwin", "numsuffix"])
+    style = style or rng.choice(["v", "v", "letters", "unicode", "long", "blanks", "digits", "mixed", "casetwin", "numsuffix", "hyphen"])
     out = set()
     k = 0
     while len(out) < n:
@@ -29,6 +29,11 @@ def gen_names(rng, n, style=None):
         elif style == "casetwin":
             # names that differ only by letter case, next to unrelated ones
             nm = rng.choice(["v", "V", "a", "A", "b", "B", "ab", "Ab", "aB", "AB", "v1", "V1"])
+            if k > 40:
+                nm += str(k)
+        elif style == "hyphen":
+            # names whose concatenations with "-" collide: ("a", "b-c") and ("a-b", "c") both read "a-b-c"
+            nm = rng.choice(["a", "b", "c", "d", "a-b", "b-c", "c-d", "a-b-c", "b-c-d", "-", "a-", "-b", "--"])
             if k > 40:
                 nm += str(k)
         elif style == "numsuffix":
